@@ -26,3 +26,24 @@ def match_known(case, known):
         except Exception:
             pass
     return None
+
+
+def crc24(data):
+    crc = 0xB704CE
+    for b in data:
+        crc ^= b << 16
+        for _ in range(8):
+            crc <<= 1
+            if crc & 0x1000000:
+                crc ^= 0x1864CFB
+    return crc & 0xFFFFFF
+
+
+def find_short_crc(make, limit=6000):
+    """make(n) -> an armorable PGPy object; returns the first one (n = 0, 1, ...) whose binary export has a CRC-24 with a zero leading
+    octet (one export in 256 by chance: the checksum that a writer padding to fewer than three octets gets wrong), or None"""
+    for n in range(limit):
+        o = make(n)
+        if crc24(bytes(o)) < 0x10000:
+            return o
+    return None
